@@ -702,6 +702,16 @@ func (s *Subtitles) removeUnusedRegionsAndStyles() {
 		}
 	}
 
+	// Styles inherited by used styles are used too
+	for _, style := range s.Styles {
+		if _, ok := usedStyles[style.ID]; !ok {
+			continue
+		}
+		for parent := style.Style; parent != nil && !usedStyles[parent.ID]; parent = parent.Style {
+			usedStyles[parent.ID] = true
+		}
+	}
+
 	// Loop through style
 	for id, style := range s.Styles {
 		if _, ok := usedStyles[style.ID]; !ok {
